@@ -22,8 +22,9 @@ def gen_config(rng, thorough, cls=None):
         txblock, txcount = rng.choice([1, 2, 3]), rng.choice([1, 2, 3])
     elif cls == "blocked":
         # one validator whose payloads everybody drops: at the heights it is the speaker of, the others change view at once
+        # it is chosen so that it becomes the speaker within the first 10 s, and the run is long enough to see what happens after that
         count = rng.choice([4, 5, 6, 7])
-        blocked = rng.randrange(count)
+        blocked = rng.choice([1, 2, 3])
     elif cls == "single":
         count = 1  # a lone validator decides inside Start()/OnTimeout(), never inside OnReceive()
     elif cls == "empty":
@@ -32,6 +33,8 @@ def gen_config(rng, thorough, cls=None):
             txcount = 0
     procs = rng.choice([1, 2, 4, 16])
     dur = rng.choice([17, 19, 22] if not thorough else [17, 22, 25, 31])
+    if cls == "blocked":
+        dur = 32 if not thorough else rng.choice([32, 41])
     return {"count": count, "watchers": watchers, "blocked": blocked, "txblock": txblock, "txcount": txcount, "gomaxprocs": procs, "duration": dur}
 
 
@@ -75,8 +78,7 @@ def judge(cfg, rc, per_node, hashes, out):
             return "different-blocks", "height %d approved with hashes %s" % (h, sorted(hs))
     for nid in range(nodes):
         hts = per_node.get(nid, [])
-        if nid == cfg["blocked"]:
-            continue  # its own payloads are dropped by everyone: it may lag or even fall behind
+        # (the blocked validator hears everybody, only its own payloads are dropped: it has to keep up like the others)
         if hts != list(range(1, len(hts) + 1)):
             return "non-consecutive-heights", "node %d approved heights %s" % (nid, hts)
         if len(hts) < lo:
